@@ -36,6 +36,9 @@ def run(tier):
     cov, covstats = stream.cover_histories(pairs=(tier == "thorough"))
     covcc, covccstats = stream.cover_histories(pairs=(tier == "thorough"), cfg="Cover_Stream_cc")
     cov = cov + covcc
+    for cfg in ("bare", "titled"):      # plain diff -u / diff -ru sources
+        cdu, _ = stream.cover_histories(pairs=(tier == "thorough"), cfg=f"Cover_DiffU_{cfg}", module="Cover_DiffU")
+        cov = cov + cdu
     allh = [c["h"] for c in cex] + hists + cov
     log(f"[{PID}] design level: {mc.distinct} distinct states, violated={mc.violated}; {len(hists)} enumerated + "
         f"{len(cov)} cover histories")
